@@ -5,7 +5,8 @@ Fault enumeration on a programmable fake DBAPI (vf/mon/poolrig_gg.py):
   for each (configuration, base history)           history = <=4 checkouts by <=3 holders:
       dry run, no fault  -> N fault points           checkout (raw_connection / connect), use,
       for each point k < N, for each fault kind:     close, invalidate, soft invalidate, detach,
-          run the history with that fault            drop reference + gc, clock tick (recycle)
+          run the history with that fault            drop reference + gc, clock tick (recycle),
+                                                     kill (every open DBAPI connection dies silently)
       thorough: also pairs of points
 
 A fault point is a DBAPI call the library makes (connect, cursor, execute/ping (pre-ping
@@ -77,7 +78,8 @@ META = {
     "exhaustive": {"quick": False, "thorough": False},
     "require": ["faults_injected", "dry_runs", "handouts_checked", "quiescence_checks", "ledger_connections",
                 "faults_in_reset", "faults_in_connect", "faults_in_preping", "faults_in_close", "listener_faults",
-                "baseexception_faults", "expected_pool_invalidations", "probe_checkouts"],
+                "baseexception_faults", "expected_pool_invalidations", "probe_checkouts", "connections_killed",
+                "calls_on_dead_connections"],
     "assumptions": ["the fake DBAPI's ledger (close_calls, created_at) is the ground truth for open/closed"],
 }
 
@@ -94,6 +96,9 @@ BASE_HISTORIES = [
     [("co", 0, "raw"), ("co", 1, "conn"), ("use", 1), ("use", 0), ("ci", 0), ("ci", 1), ("co", 2, "conn"), ("use", 2), ("ci", 2)],
     [("co", 0, "conn"), ("co", 1, "conn"), ("use", 0), ("ci", 0), ("use", 1), ("ci", 1), ("co", 0, "raw"), ("co", 1, "raw"), ("ci", 1), ("ci", 0)],
     [("co", 0, "conn"), ("ci", 0), ("co", 0, "conn"), ("ci", 0), ("co", 0, "conn"), ("use", 0), ("ci", 0)],
+    # two outages: the replacement made inside a checkout dies while pooled as well
+    [("co", 0, "raw"), ("ci", 0), ("kill",), ("co", 0, "raw"), ("use", 0), ("ci", 0), ("kill",), ("co", 1, "conn"),
+     ("use", 1), ("ci", 1)],
 ]
 
 
@@ -107,7 +112,7 @@ def random_history(rng, sequential):
             choices += ["co"] * 4
         if holding:
             choices += ["use"] * 4 + ["ci"] * 4 + ["inv", "soft", "det", "drop"]
-        choices += ["tick"]
+        choices += ["tick", "kill"]
         k = rng.choice(choices)
         if k == "co":
             h = rng.choice(free)
@@ -115,8 +120,8 @@ def random_history(rng, sequential):
             holding[h] = how
             ncheck += 1
             ops.append(("co", h, how))
-        elif k == "tick":
-            ops.append(("tick",))
+        elif k in ("tick", "kill"):
+            ops.append((k,))
         else:
             h = rng.choice(sorted(holding))
             ops.append((k, h))
@@ -173,6 +178,8 @@ class Run:
         self.preping_faults = 0
         self.fault_ops = {}
         self.fault_batch = {}
+        self.dead_handouts = 0
+        self.kills = 0
         self.inv_detached = set()
         self.closing_txn = False
 
@@ -196,6 +203,14 @@ class Run:
         elif fc.created_at <= self.epoch:
             self.bad("connection-older-than-pool-invalidation-handed-out",
                      f"{where}: connection #{fc.fake_id} created at {fc.created_at} <= invalidation at {self.epoch}")
+        elif getattr(fc, "dead", False):
+            if self.config["pre_ping"]:
+                # the pre_ping contract: a connection that died while pooled is detected at
+                # checkout and replaced, never handed out
+                self.bad("dead-connection-handed-out-despite-pre-ping",
+                         f"{where}: connection #{fc.fake_id} died while pooled and was handed out without a ping")
+            else:
+                self.dead_handouts += 1        # without pre_ping the pool cannot know
 
     def absorb_faults(self, rig, opkind, how):
         """Faults fired during the op just executed: which of them oblige a pool-wide invalidation."""
@@ -303,6 +318,8 @@ class Run:
         try:
             if kind == "tick":
                 self.clock.tick(100)
+            elif kind == "kill":
+                self.kills += rig.kill_all()
             elif kind == "co":
                 _, h, how = op
                 if h in holders:
@@ -393,6 +410,9 @@ class Run:
         elif len(open_now) > 1:
             self.bad("open-connection-not-in-pool", f"{self.config['pool']} pool left {[c.fake_id for c in open_now]} open")
         # the pool still works: a probe holder gets a live connection at once
+        if not self.config["pre_ping"]:
+            for c0 in rig.open_conns():        # without pre_ping dead idle connections are expected
+                c0.dead = False
         try:
             c = rig.eng.connect()
             fc = c.connection.dbapi_connection
@@ -507,6 +527,9 @@ def judge_and_report(ctx, run, tag):
     ctx.count("ledger_connections", run.nconns)
     ctx.count("expected_pool_invalidations", run.expected_inval)
     ctx.count("faults_in_preping", run.preping_faults)
+    ctx.count("connections_killed", run.kills)
+    ctx.count("dead_handouts_without_preping", run.dead_handouts)
+    ctx.count("calls_on_dead_connections", run.rig.dead_calls)
     for k, desc, kind in fired:
         ctx.count("faults_injected")
         ctx.seen("fault_sites", f"{desc}:{kind}")
@@ -587,6 +610,11 @@ def directed_cases(ctx):
     cases.append(({**base, "pool": "singleton", "listeners": ("checkout",)},
                   [("co", 0, "raw"), ("ci", 0), ("co", 0, "raw"), ("ci", 0), ("co", 0, "raw"), ("ci", 0)],
                   [("listener:checkout", 1, "RuntimeError"), ("next-point", 0, "interrupt")], None, None))
+    # pre_ping across two outages (no injected fault: the connections die while pooled)
+    for dialect in ("psycopg2", "pymysql"):
+        cases.append(({**base, "pool": "queue10", "pre_ping": True, "dialect": dialect},
+                      [("co", 0, "raw"), ("ci", 0), ("kill",), ("co", 0, "raw"), ("use", 0), ("ci", 0), ("kill",),
+                       ("co", 1, "conn"), ("use", 1), ("ci", 1)], None, None, None))
     for config, history, site, nth, kind in cases:
         dry = Run(ctx, config, history, {}, judge=True).execute()
         ctx.count("dry_runs")
@@ -617,7 +645,7 @@ def run(ctx):
         if i % 3 == 0:
             history = BASE_HISTORIES[(i // 3 + ctx.shard) % len(BASE_HISTORIES)]
             if seq:
-                history = [op for op in history if op[0] == "tick" or op[1] == 0]
+                history = [op for op in history if len(op) == 1 or op[1] == 0]
         else:
             history = random_history(rng, seq)
         if config["pool"] == "static":
